@@ -37,7 +37,11 @@ _IR_TEXT_FULL = dict(_PARSE_FULL)
 _IR_TEXT_FULL["xdsl.parser.core"] = dict(_PARSE_OPTS, calls=("dict", "defaultdict"))
 _IR_TEXT_FULL["xdsl.ir.core"] = {"shims": ("re",), "methods": _STR_METHODS}
 
+_C07_FULL = {m: dict(o, methods=tuple(o.get("methods", ())) + ("get",), calls=tuple(o.get("calls", ())) + ("set",)) for m, o in _IR_TEXT_FULL.items()}
+_C07_FULL["xdsl.context"] = {"shims": (), "methods": ("get",)}
+
 CHECKS = {
+    "C07": {"module": "vx.checks.c07", "instrument": {"full": _C07_FULL}, "maxtasksperchild": 40},
     "C04": {"module": "vx.checks.c04", "instrument": {"full": _IR_TEXT_FULL}, "maxtasksperchild": 10},
     "C06": {"module": "vx.checks.c06", "instrument": {"full": _PARSE_FULL}, "maxtasksperchild": 20},
     "C18": {"module": "vx.checks.c18", "instrument": {"full": _TEXT_FULL}, "maxtasksperchild": 20},
